@@ -1,6 +1,6 @@
 //! C16 — the program's options and input formats mean what the help text says.
 //! Enumerated: game files (JSON, Gambit with constant 0 and 2) x the full product of discount (5) x
-//! max-iters {1, 7} x max-regret {0, 0.3} x parallel {1, 2} x clip-threshold {0, 0.3, 1.5} x input
+//! max-iters {1, 7} x max-regret {0, 0.3} x parallel {1, 2} x clip-threshold {0, 0.3, 0.5, 1.5} x input
 //! route {file by extension, .txt + auto-detection, stdin + auto, stdin + explicit format, explicit
 //! format under the wrong extension, explicit format under the right extension} x output {stdout,
 //! -o file} with the deterministic method; the other methods on chance-free / draw-free games where
@@ -100,7 +100,9 @@ pub fn check_run(ctx: &Ctx, staged: &Staged, opts: &Options) -> Option<Printed> 
     }
     let out_path = format!("{}.{:?}", staged.out_path, std::thread::current().id()).replace(['(', ')'], "_");
     if opts.to_file {
-        let _ = std::fs::remove_file(&out_path);
+        // the destination already holds an earlier, longer result: the program must replace it
+        let stale = format!("{{\"regret\":0.0,\"player_one_strategy\":{{{}}}}}", (0..200).map(|i| format!("\"old infoset {}\":{{\"a\":0.5,\"b\":0.5}}", i)).collect::<Vec<_>>().join(","));
+        let _ = std::fs::write(&out_path, stale);
         args.extend(["-o".to_string(), out_path.clone()]);
     }
     let replay = json!({"file": file.text, "format": file.format, "model": file.model.to_replay(), "sum": file.sum, "label": file.label, "options": opts.to_json()});
@@ -219,7 +221,7 @@ pub fn run(ctx: &Ctx) -> i32 {
         for iters in [1u64, 7] {
             for max_reg in [0.0, 0.3] {
                 for parallel in [1usize, 2] {
-                    for clip in [0.0, 0.3, 1.5] {
+                    for clip in [0.0, 0.3, 0.5, 1.5] {
                         for route in 0..6u8 {
                             for to_file in [false, true] {
                                 lattice.push(Options { method: "full", discount, iters, max_reg, parallel, clip, route, to_file });
@@ -239,7 +241,13 @@ pub fn run(ctx: &Ctx) -> i32 {
             return;
         }
         check_run(ctx, &staged[*fi], &lattice[*oi]);
+        if (fi * 1920 + oi) % 20011 == 0 {
+            let mut args = lattice[*oi].args();
+            args.push(format!("route {} / {}", lattice[*oi].route, if lattice[*oi].to_file { "-o file" } else { "stdout" }));
+            ctx.sample("program run compared with the in-process library solve", json!({"file": staged[*fi].file.label, "format": staged[*fi].file.format, "args": args}));
+        }
     });
+    ctx.sample("option lattice", json!({"discount": super::c15::DISCOUNTS, "max_iters": [1, 7], "max_regret": [0.0, 0.3], "parallel": [1, 2], "clip_threshold": [0.0, 0.3, 0.5, 1.5], "input_route": ["-i file.<ext>", "-i file.txt (auto)", "stdin (auto)", "stdin + --input-format", "--input-format with the wrong extension", "--input-format with the right extension"], "output": ["stdout", "-o file"]}));
     // one game, two encodings: the same solution
     staged.par_iter().for_each(|st| {
         if st.file.format != "json" {
